@@ -78,6 +78,7 @@ static std::vector<RAFactory> reader_factories() {
   f.push_back(mk<RA<RPed>>());
   f.push_back(mk<RA<RStr, true, false, SERR>>());
   f.push_back(mk<RA<RFd, false, false, RLR>>());
+  f.push_back(mk<RA<RStrFwd, true, false, SERR>>());  // a stream that cannot seek: Skip has to consume
   f.push_back(mk<RA<RBounded<RBuf>>>());
   f.push_back(mk<RA<RBounded<RPed>>>());
   f.push_back(mk<RA<RBounded<RStr>>>());
